@@ -33,7 +33,8 @@ def configOf (j : Json) : Config :=
   { strict := jBool j "strict", url := bytesOf (jStr j "url"), tls := jBool j "tls",
     nuts := methods.contains "nuts", web := methods.contains "web",
     cryptoStorage := if crypto == "" then .implicit else if ["fs", "vaultkv", "azure-keyvault", "external"].contains crypto then .explicit else .invalid,
-    sqlExplicit := jBool j "sql", dummy := jBool j "dummy", irmaPbdf := jStr j "irma" == "pbdf",
+    sqlExplicit := jBool j "sql",
+    dummy := jBool j "dummy" && hasValidator (bytesOf "dummy") [bytesOf (if jStr j "dummyname" == "" then "dummy" else jStr j "dummyname")], irmaPbdf := jStr j "irma" == "pbdf",
     movedKey := jStr j "legacy" != "", cliFlags := if cli == "" then [] else [bytesOf flagName] }
 
 def iamAssigned : Bool := Nuts.Facts.C20.authStrictModeAssignments == ["config.Strictmode"]
@@ -68,6 +69,8 @@ def step (st : Unit) (j : Json) : Unit × List String :=
       | some (e, r) => s!"load refuse:{e}:{r}"
       | none => "load ok"
     | "sys" => showOutcome "sys" (configOf j) (start tlds l2s (configOf j))
+    | "ctx" =>
+      if contextPasses (jBool j "strict") ((jStrs j "allow").map bytesOf) (unhx (jStr j "s")) then "ctx passed" else "ctx refused"
     | "flags" =>
       let names := (jStrs j "args").map fun a => bytesOf (a.splitOn "=").head!
       let c : Config := { (default : Config) with cliFlags := names }
